@@ -1,7 +1,7 @@
 (* C07 - blade-step operators are exact; histories accumulate exactly.  Pinned theorems only. *)
 From Coq Require Import ZArith List Bool Reals Lra.
 From Flocq Require Import Core BinarySingleNaN.
-Require Import GV.FloatBase GV.FloatLemmas GV.AngleM GV.AngleProofs GV.GeonumM GV.GeonumProofs GV.NewProofs GV.CtorProofs.
+Require Import GV.FloatBase GV.FloatLemmas GV.AngleM GV.AngleProofs GV.GeonumM GV.GeonumProofs GV.NewProofs GV.CtorProofs GV.PiBounds GV.TrigProofs GV.DotValue GV.DirProofs.
 Open Scope R_scope.
 
 (* steps_to a a' k : blade a' = blade a + k, remainder numerically unchanged and finite *)
@@ -70,3 +70,18 @@ Theorem C07_grade_angle_range : forall a, canonp (rem a) ->
   fin (grade_angle a) /\ 0 <= R_ (grade_angle a) < 4 * R_ Q.
 Proof. exact grade_angle_range. Qed.
 Print Assumptions C07_grade_angle_range.
+
+(* with the REAL pi: a k-step operator turns the direction by EXACTLY k quarter turns (no error term) *)
+Theorem C07_direction : forall a a' k, steps_to a a' k -> dirR a' = dirR a + IZR k * (Rtrigo1.PI / 2).
+Proof. exact steps_dirR. Qed.
+Print Assumptions C07_direction.
+
+Theorem C07_half_turns : forall a, canonp (rem a) ->
+  dirR (dual a) = dirR a + Rtrigo1.PI /\ dirR (undual a) = dirR a + Rtrigo1.PI /\
+  dirR (negate a) = dirR a + Rtrigo1.PI /\ dirR (conjugate a) = dirR a + Rtrigo1.PI /\
+  cos (dirR (dual a)) = - cos (dirR a) /\ sin (dirR (dual a)) = - sin (dirR a).
+Proof.
+intros a C. split; [exact (dual_dirR a C)|]. split; [exact (undual_dirR a C)|].
+split; [exact (negate_dirR a C)|]. split; [exact (conjugate_dirR a C)|]. exact (dual_cos_sin a C).
+Qed.
+Print Assumptions C07_half_turns.
